@@ -145,6 +145,7 @@ def c07(ctx):
                 raise Infra("candidate did not reproduce")
     n, b = scale(ctx, (2500, 4), (6000, 16))
     sem.trace_batches(ctx, "pair", "MachineTrace_C07.cfg", n, b)
+    sem.trace_batches(ctx, "pairvars", "MachineTrace_C07.cfg", n, b)     # amounts / caps through re-used variables, several statements
     sem.repo_corpus(ctx, "MachineTrace_C07.cfg")
     return ctx.finish("model_checking", "exhaustive: all sender/receiver lists up to the bound (Reconcile.tla initial states, equal sums) fed to interpreter.Reconcile; "
                       "plus random whole sends of the 'pair' corpus judged on flow matrices; non-trivial = >= 2 postings")
